@@ -135,7 +135,7 @@ pub fn rows(args: &[String]) {
         let text = r["text"].as_str().unwrap();
         let o = analyze_string(text, None, true);
         let push = |kind: &str, what: &str, detail: Value| {
-            fails.lock().unwrap().push(json!({"kind": kind, "what": what, "stmt": "arith", "form": r["op"], "text": text, "lt": r["lt"], "rt": r["rt"], "detail": detail}));
+            fails.lock().unwrap().push(json!({"kind": kind, "what": what, "stmt": "arith", "form": r["op"], "lform": r["lform"], "rform": r["rform"], "text": text, "lt": r["lt"], "rt": r["rt"], "detail": detail}));
         };
         if let Some(p) = o.get("panic") {
             push("panic", "analysis panicked", json!({"site": p["func"], "msg": p["msg"]}));
@@ -153,21 +153,45 @@ pub fn rows(args: &[String]) {
         }
         let b = &e["0"];
         for side in ["left", "right"] {
-            let (se, sty) = texpr(&b[side]);
+            let (_se, sty) = texpr(&b[side]);
             let declared = if side == "left" { r["lt"].as_str().unwrap() } else { r["rt"].as_str().unwrap() };
-            let ok = if se["_"] == json!("Cast") {
-                type_text(&se["0"]["typ"]) == c && sty == c && type_text(&se["0"]["operand"]["ty"]) == declared
-            } else {
-                sty == c && sty == declared
-            };
+            let form = if side == "left" { r["lform"].as_str().unwrap_or("var") } else { r["rform"].as_str().unwrap_or("var") };
+            // peel the Cast nodes from the top; for the "cast" form the innermost one is the user's expression
+            let mut chain: Vec<&Value> = vec![&b[side]];
+            loop {
+                let cur = chain[chain.len() - 1];
+                if cur["expression"]["_"] == json!("Cast") {
+                    chain.push(&cur["expression"]["0"]["operand"]);
+                } else {
+                    break;
+                }
+            }
+            let explicit = if form == "cast" { 1 } else { 0 };
+            let n_implicit = (chain.len() - 1).saturating_sub(explicit);
+            let own_ty = type_text(&chain[n_implicit]["ty"]);
+            // (1) the operand expression itself carries the type of its symbol / cast target / literal class / return type
+            // (2) it is of the expression's type (up to const-ness), or wrapped in ONE explicit cast to exactly that type
+            let ok = own_ty == declared
+                && if n_implicit == 0 {
+                    strip_const(&sty) == strip_const(&c)
+                } else {
+                    n_implicit == 1 && type_text(&b[side]["expression"]["0"]["typ"]) == c && sty == c
+                };
             if !ok {
                 push("arith_operand", "operand of an arithmetic expression is neither of the expression's type nor explicitly cast to it",
-                     json!({"side": side, "expr_type": c, "operand_type": sty, "declared": declared, "is_cast": se["_"] == json!("Cast")}));
+                     json!({"side": side, "expr_type": c, "operand_type": sty, "declared": declared, "own_type": own_ty, "implicit_casts": n_implicit, "form": form}));
                 return;
             }
         }
         if c == "Void" || c == "Undefined" || c == "ToDo" {
             push("arith_type", "arithmetic expression over numeric operands has no type", json!({"expr_type": c}));
+            return;
+        }
+        // the expression's type is the common type of the operands (TypeRules.Common); '/' over two integer
+        // operands may also be typed as the unsized float (named deviation Dev_IntDivisionIsFloat)
+        let common = r["common"].as_str().unwrap_or("");
+        if !common.is_empty() && strip_const(&c) != strip_const(common) && !(r["intdiv"] == json!(true) && c == "Float(None, False)") {
+            push("arith_common", "arithmetic expression does not have the common type of its operands", json!({"expr_type": c, "common": common}));
         }
     });
     let out = json!({"rows": rows.len(), "arith": arith.len(), "outcomes": *stats.lock().unwrap(), "failures": fails.into_inner().unwrap()});
